@@ -824,6 +824,48 @@ def gen_stream_ops(ctx, frames, rng, ver=4):
     return lines, gidx
 
 
+def varint(n):
+    out = bytearray()
+    while True:
+        b = n % 128
+        n //= 128
+        out.append(b | (128 if n else 0))
+        if not n:
+            return bytes(out)
+
+
+def gen_limit_stream_ops(ctx, rng):
+    """frames whose remaining length is within a few bytes of the configured maximum (m-4 .. m+1, length fields of 1, 2 and 3
+    bytes), each followed by a PINGREQ, through the real framing glue of both crates and both protocol versions: fed whole, under
+    2-chunk splits (all of them for frames <= 140 bytes; around the header, the middle and the end for the long ones) and byte by
+    byte for the small ones.  c05_read_frame_over_max says which are rejected, c05_chunking_independent that the split is irrelevant."""
+    lines, gidx = [], []
+    for m in (16, 127, 128, 130, 1000, 10240, 16385):
+        for rem in range(m - 4 if (m < 16000 or ctx.thorough()) else m - 1, m + 2):
+            for ver in (4, 5):
+                extra = 1 if ver == 5 else 0                       # v5: property length byte
+                pl = rem - 3 - extra
+                if pl < 0:
+                    continue
+                raw = b"\x30" + varint(rem) + b"\x00\x01t" + (b"\x00" if ver == 5 else b"") + bytes((i * 5 + rem) & 0xff for i in range(pl)) + b"\xc0\x00"
+                n = len(raw)
+                if n <= 140:
+                    cuts = list(range(1, n))
+                else:
+                    cuts = sorted({1, 2, 3, 4, 5, n // 2, n - 1} | {1 + rng.below(n - 1) for _ in range(1 if not ctx.thorough() else 6)})
+                sp = [[raw]] + [[raw[:c], raw[c:]] for c in cuts]
+                if n <= 140:
+                    sp.append([raw[i:i + 1] for i in range(n)])
+                else:
+                    sp.append([raw[:2], raw[2:3], raw[3:n - 1], raw[n - 1:]])
+                for fl in "CB":
+                    start = len(lines)
+                    for chunks in sp:
+                        lines.append("STREAM %d %s %d %s" % (ver, fl, m, " ".join(c.hex() for c in chunks if c)))
+                    gidx.append((start, len(lines)))
+    return lines, gidx
+
+
 def run_c05(ctx, mexe, iexe, p_ok):
     rng = lib.Rng(ctx.seed)
     ctx.cov["rule"] = (
@@ -836,7 +878,9 @@ def run_c05(ctx, mexe, iexe, p_ok):
         "without body; MORE k only if header incomplete or buffer < frame, 1 <= k <= missing. (b) STREAM: concatenations of 1-6 frames (+ one malformed or "
         "truncated frame in half of them) fed through the real Framed<duplex,Codec> (rumqttc::verif::Network::read) and rumqttd Network::read/readv over "
         "tokio duplex, unsplit, every 2-chunk split (<= 40 bytes, else 12 random), 3 random k-chunk splits, byte by byte; monitor: all chunkings of one stream "
-        "give the same packet sequence and terminal, no PANIC. (c) UTF8: the model's validator vs String::from_utf8 on lead/continuation boundary bytes. "
+        "give the same packet sequence and terminal, no PANIC; additionally frames with remaining length m-4..m+1 for max sizes m in {16,127,128,130,1000,10240,16385} "
+        "(1-, 2- and 3-byte length fields), each followed by a PINGREQ, both crates and both versions, whole / every 2-chunk split (<= 140 bytes; header, middle, end cuts "
+        "for the long ones) / byte by byte. (c) UTF8: the model's validator vs String::from_utf8 on lead/continuation boundary bytes. "
         "Every answer is also compared with the extracted Coq model. distinct_nontrivial = distinct DEC "
         "inputs that are not plain valid frames (malformed / truncated / over-max / trailing bytes) + distinct chunkings whose first cut falls inside a frame.")
     frames = small_valid_frames(ctx, mexe, rng)
@@ -858,6 +902,9 @@ def run_c05(ctx, mexe, iexe, p_ok):
     slines5, gidx5 = gen_stream_ops(ctx, frames5, rng, 5)
     gidx += [(a_ + len(slines), b_ + len(slines)) for (a_, b_) in gidx5]
     slines += slines5
+    llines, lgidx = gen_limit_stream_ops(ctx, rng)
+    gidx += [(a_ + len(slines), b_ + len(slines)) for (a_, b_) in lgidx]
+    slines += llines
     fails, diffs = [], []
     hist, nontriv = {}, set()
     counters = {"ops": 0, "nontriv_extra": 0}
@@ -945,6 +992,7 @@ def run_c05(ctx, mexe, iexe, p_ok):
     ctx.cov["mutation_ops"] = 2 * mut_n + 2 * mut_n5
     ctx.cov["v5_dec_ops"] = len(dlines5)
     ctx.cov["v5_stream_chunkings"] = len(slines5)
+    ctx.cov["near_limit_stream_chunkings"] = len(llines)
     ctx.cov["utf8_ops"] = len(ulines)
     ctx.cov["streams"] = len(gidx)
     ctx.cov["stream_chunkings"] = len(slines)
